@@ -31,7 +31,7 @@ PFX = {"v4": ["x1", "x2"], "v6": ["y1"], "vpn4": ["z1"]}
 def materialise(name, k, spec, invs, base):
     d = os.path.join(vf.WORK, "deferral", f"{name}-{spec}")
     os.makedirs(d, exist_ok=True)
-    for f in ("Deferral.tla", "DeferralMC.tla"):
+    for f in ("Deferral.tla", "DeferralMC.tla", "DeferralMCR.tla"):
         with open(os.path.join(SPEC, f)) as src, open(os.path.join(d, f), "w") as dst:
             dst.write(src.read())
     ts = riblib.tset
